@@ -136,6 +136,7 @@ func (ex *Exec) RunPath(fn *ssa.Function, trail []int) (res *PathResult, newTrai
 	ex.draws = nil
 	ex.axDone = map[string]bool{}
 	ex.axByTrig = map[int][]*axEntry{}
+	ex.sol.alias = map[int]*Term{}
 	ex.nondets = map[string]*Term{}
 	ex.ranges = map[string][2]int64{}
 	ex.closureCalls = map[*Closure]int{}
